@@ -2,9 +2,9 @@
     Property theorems only: statement, [exact] of a lemma proved in Proofs/C08_World.v, [Print Assumptions].
     Model: Model/C08_World.v over the regenerated table Gen/C08_Entropy.v (reference graph + entropy sources of every
     function of the package, produced by harness/translate/c08_entropy.py on every run). *)
-From Coq Require Import List ZArith NArith PArith Bool FMapPositive.
+From Coq Require Import List ZArith QArith NArith PArith Bool FMapPositive.
 From Coq Require String.
-From PV Require Import Lib.Common Gen.C08_Entropy Model.C08_World Proofs.C08_World.
+From PV Require Import Lib.Common Gen.C08_Entropy Model.C08_World Proofs.C08_World Gen.C08_Kernel Model.C08_SeedK Proofs.C08_Kernel.
 Import ListNotations String.StringSyntax W.
 Delimit Scope string_scope with string.
 
@@ -159,6 +159,62 @@ Theorem C08_spawn_seeds_in_range : forall n sbits py l py', MT.spawn_ints n sbit
   length l = n /\ Forall (fun x => (x <= 2 ^ sbits - 1)%Z) l.
 Proof. exact WP.spawn_ints_spec. Qed.
 Print Assumptions C08_spawn_seeds_in_range.
+
+(** ** kernel expressions of the CURRENT source (Gen/C08_Kernel.v is regenerated from pybrops/core/random/prng.py and the pymoo
+    optimisers on every run) *)
+
+(** The seeding interface assembled from the generated expressions ([MK], the one the correspondence shards evaluate against the
+    implementation) IS the hand-written bit-exact model: the argument handed to random.seed, the bounds of the draw that seeds
+    numpy's stream, the bounds / count / guard / default of spawn. *)
+Theorem C08_kernel_is_model :
+  (forall s, MK.prng_seed s = MT.prng_seed s) /\
+  (forall n sbits py, MK.spawn_many n sbits py = MT.spawn_ints n sbits py) /\
+  (forall sbits py, MK.spawn_one sbits py = MT.spawn_ints 1 sbits py) /\
+  (forall s, k_seed_py_arg s = s) /\ (k_seed_np_lo = 0 /\ k_seed_np_hi = 2 ^ 32 - 1)%Z /\
+  (forall sbits, k_spawn_one_lo sbits = 0 /\ k_spawn_one_hi sbits = 2 ^ sbits - 1 /\ k_spawn_many_lo sbits = 0 /\ k_spawn_many_hi sbits = 2 ^ sbits - 1)%Z /\
+  (forall n, k_spawn_many_count n = n) /\ (forall n, k_spawn_reject n = (n <? 0)%Z) /\ k_spawn_default_sbits = 64%Z /\
+  (forall s (reqs : list (option nat)) sbits pk pp nk np ents pk2 pp2,
+     MK.seed_scenario_agree s (map (option_map Z.of_nat) reqs) (Some sbits) pk pp nk np ents pk2 pp2 =
+     MT.seed_scenario_agree s (map (fun r => match r with None => 1%nat | Some n => n end) reqs) sbits pk pp nk np ents pk2 pp2).
+Proof.
+  split; [exact k_prng_seed_model|]. split; [intros n sbits py; apply k_spawn_many_model|]. split; [exact k_spawn_one_model|].
+  split; [exact k_seed_py_arg_model|]. split; [exact k_seed_np_bounds_model|]. split; [exact k_spawn_bounds_model|].
+  split; [exact k_spawn_count_model|]. split; [exact k_spawn_reject_model|]. split; [exact k_spawn_default_sbits_model|].
+  exact k_scenario_model.
+Qed.
+Print Assumptions C08_kernel_is_model.
+
+(** seed() as generated: the integer handed to numpy.random.seed is the draw of the python stream seeded with s and never exceeds
+    2^32-1, the largest seed numpy's legacy seeding accepts (an upper bound 2**32 would raise once in 2^32 seeds). *)
+Theorem C08_kernel_seed_numpy_range : forall s py np x py1, MK.prng_seed s = Some (py, np) ->
+  MT.randint k_seed_np_lo k_seed_np_hi (MT.py_seed (k_seed_py_arg s)) = Some (x, py1) ->
+  (x <= 4294967295)%Z /\ np = MT.np_seed x /\ py = py1.
+Proof. exact kernel_seed_numpy_range. Qed.
+Print Assumptions C08_kernel_seed_numpy_range.
+
+(** spawn() as generated: an answered request is the single stream or a non-negative count, yields exactly that many stream seeds,
+    each at most 2^sbits - 1. *)
+Theorem C08_kernel_spawn_request_spec : forall r sbits py l py', MK.spawn_req r sbits py = Some (l, py') ->
+  match r with None => length l = 1%nat | Some n => (0 <= n)%Z /\ length l = Z.to_nat n end /\ Forall (fun x => (x <= 2 ^ sbits - 1)%Z) l.
+Proof. exact kernel_spawn_req_spec. Qed.
+Print Assumptions C08_kernel_spawn_request_spec.
+
+(** the guard of spawn() rejects exactly the negative counts; spawn(0) answers the empty list and leaves the python stream alone *)
+Theorem C08_kernel_spawn_guard : forall n,
+  (k_spawn_reject n = true <-> (n < 0)%Z) /\ (forall sbits py, MK.spawn_req (Some 0%Z) sbits py = Some ([], py)).
+Proof. exact kernel_spawn_guard. Qed.
+Print Assumptions C08_kernel_spawn_guard.
+
+(** the seed every pymoo-based optimiser hands to minimize() (13 call sites, one expression): for every draw u of
+    self.rng.uniform(lo, hi) it is an unsigned 32-bit integer — a function of the optimiser's generator, never None (OS entropy) *)
+Theorem C08_kernel_minimize_seed_range : forall u : Q, Qle k_minimize_u_lo u -> Qlt u k_minimize_u_hi ->
+  (0 <= k_minimize_seed u <= 2 ^ 32 - 1)%Z.
+Proof. exact kernel_minimize_seed_range. Qed.
+Print Assumptions C08_kernel_minimize_seed_range.
+Example C08_kernel_minimize_hyps_satisfiable :
+  Qle k_minimize_u_lo (1 # 2) /\ Qlt (1 # 2) k_minimize_u_hi /\ k_minimize_seed (1 # 2) = 2147483648%Z /\
+  k_minimize_seed 0 = 0%Z /\ k_minimize_seed (4294967295 # 4294967296) = (2 ^ 32 - 1)%Z.
+Proof. repeat split; try (vm_compute; congruence); exact (proj2 kernel_minimize_seed_ends). Qed.
 
 (** non-vacuity: a concrete well-scoped program whose calls respect their footprints (spawn a stream, use it, use the
     global stream); the table lists are non-empty *)
